@@ -9,6 +9,18 @@ CHECKS = {
          'are validated by Trace_SDict.tla.  Exhaustive within the bound, independent oracle.',
     ref='DESIGN.md 5/C16', technique='TLA+ spec SDict + TLC exhaustive model check; TLC edge generation replayed on the code; TLC trace validation of recorded histories',
     note='keys/values are small abstract alphabets; negative indices not claimed; TLC, CPython trusted'),
+
+ 'C14': dict(
+    text='TLC model-checks spec/GridSeq.tla (Grid as a Python list: every mutator with Python index arithmetic, refusal rules, derived grids) '
+         'exhaustively; TLC prints every state with its observation table and every edge, each edge is replayed on real Grids (cold and warm id '
+         'index) and all observations compared; seeded random histories are validated by Trace_GridSeq.tla.',
+    ref='DESIGN.md 5/C14', technique='TLA+ spec GridSeq + TLC exhaustive model check; TLC state/edge generation replayed on the code; TLC trace validation',
+    note='rows identified by object identity over a small alphabet; MaxLen 3 in the exhaustive part; slice assignment not claimed'),
+ 'C15': dict(
+    text='Same GridSeq engine: after every replayed edge and every event of every random history, g[key] and g.get(key) for str/int/Ref keys '
+         'must return a row the model\'s scan LookupAllowed(rows, key) permits, else KeyError/default.',
+    ref='DESIGN.md 5/C15', technique='TLA+ spec GridSeq (LookupAllowed as a scan of the current rows) + TLC edge generation and trace validation',
+    note='numeric g[key] is positional and excluded; in-place edits of a stored row are excluded (reindex() is documented for that)'),
 }
 NOT_YET = {}
 
